@@ -18,6 +18,18 @@ pub fn runtime() -> &'static tokio::runtime::Runtime {
 pub struct Server {
     pub port: u16,
     task: tokio::task::JoinHandle<()>,
+    _lock: PortLock,
+}
+
+/// cross-process reservation of a port number (an abstract unix socket, gone with the process): held from before the
+/// probe until the server is dropped, so that no two harness processes — several checks, matrix workers and snapshots run
+/// side by side — can have servers on one port at the same time
+pub struct PortLock(#[allow(dead_code)] std::os::unix::net::UnixListener);
+
+fn reserve(port: u16) -> Option<PortLock> {
+    use std::os::linux::net::SocketAddrExt;
+    let addr = std::os::unix::net::SocketAddr::from_abstract_name(format!("memcverif-port-{}", port)).ok()?;
+    std::os::unix::net::UnixListener::bind_addr(&addr).ok().map(PortLock)
 }
 
 impl Drop for Server {
@@ -29,6 +41,14 @@ impl Drop for Server {
 /// ports are handed out from a per-process range: the server binds with SO_REUSEPORT, so two servers given
 /// the same "free" port would silently share incoming connections
 pub fn free_port() -> u16 {
+    // reservations of the external-process suite live as long as the harness process
+    static HELD: std::sync::Mutex<Vec<PortLock>> = std::sync::Mutex::new(Vec::new());
+    let (port, lock) = free_port_locked();
+    HELD.lock().unwrap().push(lock);
+    port
+}
+
+pub fn free_port_locked() -> (u16, PortLock) {
     static NEXT: std::sync::atomic::AtomicU32 = std::sync::atomic::AtomicU32::new(0);
     loop {
         let n = NEXT.fetch_add(1, std::sync::atomic::Ordering::SeqCst);
@@ -39,16 +59,17 @@ pub fn free_port() -> u16 {
         if port < 1024 {
             continue;
         }
+        let Some(lock) = reserve(port) else { continue };
         if let Ok(l) = TcpListener::bind(("127.0.0.1", port)) {
             drop(l);
-            return port;
+            return (port, lock);
         }
     }
 }
 
 pub fn start_server(store: Arc<dyn Cache + Send + Sync>, item_limit: u32, conn_limit: u32, timeout_secs: u32) -> Server {
     for _ in 0..20 {
-        let port = free_port();
+        let (port, lock) = free_port_locked();
         let cfg = MemcacheServerConfig::new(timeout_secs, conn_limit, item_limit, 128);
         let mut srv = MemcacheTcpServer::new(cfg, store.clone());
         let task = runtime().spawn(async move {
@@ -60,7 +81,7 @@ pub fn start_server(store: Arc<dyn Cache + Send + Sync>, item_limit: u32, conn_l
             if let Ok(s) = TcpStream::connect(("127.0.0.1", port)) {
                 let _ = socket2::SockRef::from(&s).set_linger(Some(Duration::from_secs(0)));
                 drop(s);
-                return Server { port, task };
+                return Server { port, task, _lock: lock };
             }
             if task.is_finished() {
                 break;
